@@ -51,7 +51,8 @@ mut("c09_dfxp_deepcopy_after_relativize", "C09", "catch", [
 mut("c09_sami_last_time_not_reset", "C09", "catch", [("pycaption/sami.py", "            self.last_time = None\n            if primary is None:", "            if primary is None:")])
 mut("c09_webvtt_global_layout_sticky", "C09", "catch", [("pycaption/webvtt.py", "        self.global_layout = caption_set.get_layout_info(lang)\n", "        if self.global_layout is None:\n            self.global_layout = caption_set.get_layout_info(lang)\n")])
 mut("c09_dfxp_region_creator_reused", "C09", "catch", [("pycaption/dfxp/base.py", "        self.region_creator = self._get_region_creator_class()(\n            dfxp, caption_set)\n", "        if self.region_creator is None:\n            self.region_creator = self._get_region_creator_class()(\n                dfxp, caption_set)\n        else:\n            self.region_creator._dfxp = dfxp\n            self.region_creator._caption_set = caption_set\n")])
-mut("c09_orderedset_is_set", "C09", "catch", [("pycaption/dfxp/base.py", "        unique_regions = _OrderedSet()\n", "        unique_regions = set()\n")])
+mut("c09_orderedset_is_set", "C09", "catch", [("pycaption/dfxp/base.py", "        unique_regions = _OrderedSet()\n", "        unique_regions = set()\n")],
+    note="the pinned suite itself fails for some PYTHONHASHSEED values with this change (7 tests under an unlucky seed, none under others): kept because it is the anchor's named mechanism")
 mut("c09_fit_to_screen_mutates_self", "C09", "quiet", [("pycaption/geometry.py", "            return Layout(\n                origin=self.origin,\n                extent=new_extent,\n                padding=self.padding,\n                alignment=self.alignment\n", "            self.extent = new_extent\n            return Layout(\n                origin=self.origin,\n                extent=new_extent,\n                padding=self.padding,\n                alignment=self.alignment\n")],
     note="specificity: writers only ever call fit_to_screen on their own deep copy or on fresh objects from as_percentage_of, so the input stays intact and the output stays deterministic: C09 holds")
 mut("c09_module_default_not_restored", "C09", "catch", [("pycaption/dfxp/base.py",
@@ -113,12 +114,8 @@ mut("c20_detect_full_content_memo", "C20", "quiet", [("pycaption/__init__.py", "
 
 # ------------------------------------------------------------------- specificity (must stay quiet)
 mut("quiet_scc_reset_also_at_end", "C10", "quiet", [("pycaption/scc/__init__.py", "            fix_last_captions_without_ending(captions.get_captions(lang))\n\n        return captions", "            fix_last_captions_without_ending(captions.get_captions(lang))\n\n        self._reset_decoder_state()\n        return captions")])
-mut("quiet_error_messages_changed", "C10", "quiet", [("pycaption/srt.py", "raise CaptionReadNoCaptions(\"empty caption file\")", "raise CaptionReadNoCaptions(\"the SRT document holds no captions\")"),
+mut("quiet_error_messages_changed", "C10", "quiet", [("pycaption/microdvd.py", "raise CaptionReadNoCaptions(\"Empty caption file\")", "raise CaptionReadNoCaptions(\"the MicroDVD document holds no captions\")"),
     ("pycaption/geometry.py", "\"At least one of video width or height\"", "\"Neither video width nor height was given; one\"")])
-mut("quiet_layout_private_cache", "C09", "quiet", [("pycaption/geometry.py", "        self.webvtt_positioning = webvtt_positioning\n\n        if inherit_from:", "        self.webvtt_positioning = webvtt_positioning\n        self._hash_cache = None\n\n        if inherit_from:"),
-    ("pycaption/geometry.py", "    def __hash__(self):\n        return hash(\n            hash(self.origin) * 7\n", "    def __hash__(self):\n        if self._hash_cache is not None:\n            return self._hash_cache\n        self._hash_cache = hash(\n            hash(self.origin) * 7\n"),
-    ("pycaption/geometry.py", "            + hash(self.alignment) * 5\n            + 17\n        )\n", "            + hash(self.alignment) * 5\n            + 17\n        )\n        return self._hash_cache\n")],
-    note="a private cache attribute on Layout (mutated by hashing during write) is not part of the public model")
 mut("quiet_srt_writer_no_deepcopy", "C09", "quiet", [("pycaption/srt.py", "        caption_set = deepcopy(caption_set)\n\n        srt_captions = []", "        srt_captions = []")],
     note="SRTWriter never mutates its input, so dropping its defensive copy changes nothing observable")
 mut("quiet_sami_reader_stateless", "C10", "quiet", [("pycaption/sami.py", "                self.first_alignment = None\n\n                caption = Caption(start, end, self.line, styles, caption_layout)", "                self.first_alignment = None\n                line, self.line = self.line, []\n\n                caption = Caption(start, end, line, styles, caption_layout)")])
